@@ -5,11 +5,11 @@ wt=$1; mut=$2
 cd $wt || exit 9
 git checkout -q -- . 2>/dev/null
 clean_demo=fail; build=fail; suite=fail; mut_demo=pass
-( timeout 900 sh $mut/demo.sh $wt ) > /tmp/c2_clean.log 2>&1 && clean_demo=pass
+( timeout 900 bash $mut/demo.sh $wt ) > /tmp/c2_clean.log 2>&1 && clean_demo=pass
 git checkout -q -- .
 git apply $mut/patch.diff || { echo "{\"mutant\":\"$mut\",\"error\":\"patch does not apply\"}"; exit 1; }
 go build ./... > /tmp/c2_build.log 2>&1 && build=pass
 GOFLAGS=-mod=readonly go test -vet=off -count=1 $(go list ./... 2>/dev/null | grep -v '/out') > /tmp/c2_suite.log 2>&1 && suite=pass
-( timeout 900 sh $mut/demo.sh $wt ) > /tmp/c2_mut.log 2>&1 || mut_demo=fail
+( timeout 900 bash $mut/demo.sh $wt ) > /tmp/c2_mut.log 2>&1 || mut_demo=fail
 git checkout -q -- .
 echo "{\"mutant\":\"$mut\",\"demo_on_clean_tree\":\"$clean_demo\",\"build_with_patch\":\"$build\",\"suite_with_patch\":\"$suite\",\"demo_with_patch\":\"$mut_demo\"}"
